@@ -125,11 +125,24 @@ def run_part(ctx):
                       "commands of the legal sequence %s" % (crash_line(r2.stderr), done, text_of(scripts[k])),
                       {"stage": "bininput", "script": list(scripts[k]), "stderr": (r2.stderr or "")[-3000:]})
         return
-    swapped = sum(1 for h in hs for a in h if a["e"] == "Store" and any(e[0] == "sunreg" for e in a["evs"])
-                  and any(e[0] == "sreg" for e in a["evs"]))
-    dropped = sum(1 for h in hs for a in h if a["e"] == "Store" and a["x"] == "none" and any(e[0] == "sunreg" for e in a["evs"]))
+    # what the scripts asked for (counted on the commands, not on what the code did)
+    swapped = dropped = 0
+    for h in hs:
+        regd, first = set(), "none"
+        for a in h[1:]:
+            if a["e"] == "Reg":
+                regd.add(a["r"])
+            elif a["e"] == "Unreg":
+                regd.discard(a["r"])
+            elif a["e"] == "Store":
+                if first != "none" and regd:
+                    if a["x"] == "none":
+                        dropped += 1
+                    else:
+                        swapped += 1
+                first = a["x"]
     answered = sum(1 for h in hs for a in h if a["e"] == "Provide" and a["evs"])
-    if not swapped or not dropped or not answered:
+    if not swapped or not dropped:
         raise vlib.ToolError("vacuity: first inner replaced with requests registered %d times, dropped %d times, answers %d"
                              % (swapped, dropped, answered))
     ctx.extra["bin_first_inner"] = {"executions": len(hs), "events": sum(len(h) for h in hs),
@@ -147,9 +160,10 @@ def run_part(ctx):
                 break
         if fake:
             break
-    rej = ctx.validate_histories_1pass("BinInput_Trace", "BinInput_Trace.cfg", hs + [fake], tag="bininput")
-    ctx.traces -= 1
-    if not any(i == len(hs) for i, _, _ in rej):
+    rej = ctx.validate_histories_1pass("BinInput_Trace", "BinInput_Trace.cfg", hs + ([fake] if fake else []), tag="bininput")
+    ctx.traces -= 1 if fake else 0
+    # (no execution shows a withdrawal only when the code under test makes none: the rejections below say so)
+    if fake and not any(i == len(hs) for i, _, _ in rej):
         raise vlib.ToolError("vacuity: an execution with one withdrawal removed was accepted by BinInput_Trace")
     ctx.evaluations += sum(len(h) for h in hs)
     seen = set()
